@@ -25,7 +25,7 @@ from harness.tlc import run_tlc, TLCError
 
 NONE = 1000000
 TIMEOUT_S = 30            # per API call
-MEM_LIMIT = 3 * 2 ** 30   # address space of a worker process
+MEM_LIMIT = 2 * 2 ** 30   # address space of a worker process
 
 # ------------------------------------------------------------------------------------------
 # the TLC configurations: name -> (use, quick stride, thorough partitions)
@@ -302,22 +302,39 @@ def grid_points(hdr):
 _GRIDS = {}
 
 
+def mask(ids):
+    m = 0
+    for k in ids:
+        m |= 1 << k
+    return m
+
+
+def ids(m):
+    out, k = [], 0
+    while m:
+        if m & 1:
+            out.append(k)
+        m >>= 1
+        k += 1
+    return out
+
+
 def satisfied(cases, names, hdr, und):
+    """bitmask of the grid points (outside the mask `und`) at which some case holds"""
     key = (tuple(hdr["coords"]), hdr["nv"])
     if key not in _GRIDS:
         _GRIDS[key] = grid_points(hdr)
     pts = _GRIDS[key]
     comp = [compile_case(c, names) for c in cases]
-    got = set()
-    undef = set(und)
+    got = 0
     nv = hdr["nv"]
     for k, p in enumerate(pts):
-        if k in undef:
+        if (und >> k) & 1:
             continue
         env = {names[j]: p[j] for j in range(nv)}
         for c in comp:
             if case_holds(c, env):
-                got.add(k)
+                got |= 1 << k
                 break
     return got
 
@@ -387,15 +404,17 @@ def compare(job, hdr, cases, names, api, returned):
         got = satisfied(cases, names, hdr, job["und"])
     except Unparsable as ex:
         return {"st": "unparsed", "api": api, "why": str(ex), "returned": returned}
-    sol = set(job["sol"])
-    ndef = hdr["npts"] - len(job["und"])
-    res = {"st": "ok", "api": api, "nontrivial": 0 < len(sol) < ndef, "ncases": len(cases)}
+    sol = job["sol"]
+    nsol = bin(sol).count("1")
+    ndef = hdr["npts"] - bin(job["und"]).count("1")
+    res = {"st": "ok", "api": api, "nontrivial": 0 < nsol < ndef, "ncases": len(cases),
+           "returned_ok": returned if len(str(returned)) < 200 else None}
     if got != sol:
-        missing, extra = sorted(sol - got), sorted(got - sol)
-        res.update(st="viol", missing=len(missing), extra=len(extra), nsol=len(sol), returned=returned,
+        missing, extra = ids(sol & ~got), ids(got & ~sol)
+        res.update(st="viol", missing=len(missing), extra=len(extra), nsol=nsol, returned=returned,
                    missing_pts=[pt_values(hdr, k) for k in missing[:4]],
                    extra_pts=[pt_values(hdr, k) for k in extra[:4]],
-                   missing_all_ids=missing, extra_all_ids=extra)
+                   missing_mask=sol & ~got)
     return res
 
 
@@ -522,7 +541,11 @@ def tlc_runs(a, names=None):
                 raise TLCError("no header from MC_Sym%s" % name)
             ent = out.setdefault(name, [hdr, [], []])
             ent[0] = ent[0] or hdr
+            for st in r.printed[1:]:             # index lists -> bitmasks (memory)
+                st["sol"], st["und"], st["crit"] = mask(st["sol"]), mask(st["und"]), mask(st.get("crit") or ())
             ent[1].extend(r.printed[1:])
+            r["printed"] = None
+            r["out"] = r["out"][-3000:]
             ent[2].append(r)
     return out
 
@@ -533,7 +556,7 @@ def make_jobs(name, hdr, states, seed, thorough):
     jobs = []
     combos = [(s, st) for s in range(len(SCHEMES)) for st in range(len(STYLES))]
     for i, s in enumerate(states):
-        base = {"cfg": name, "use": use, "sol": s["sol"], "und": s["und"], "crit": s.get("crit") or [], "rw": s["rw"],
+        base = {"cfg": name, "use": use, "sol": s["sol"], "und": s["und"], "crit": s["crit"], "rw": s["rw"],
                 "seed": seed * 1000003 + i}
         if use == "simplify":
             picks = [combos[(i * 7 + seed) % len(combos)]]
@@ -588,7 +611,7 @@ def vkey(job, r):
     api = r["api"]
     if api.startswith("simplify"):
         lines = job["prog"] if job["use"] == "simplify" else job["lines"]
-        if what == "missing" and set(r["missing_all_ids"]) <= set(job.get("crit") or ()):
+        if what == "missing" and (r["missing_mask"] & ~job.get("crit", 0)) == 0:
             what = "zero-case-dropped"
         shapes = sorted(set(shape(ln) for ln in lines), key=lambda x: (x not in _DEGENERATE, x))
         form = "+".join(shapes)
@@ -613,6 +636,7 @@ def replay(ck, a, tl, only=None, corrupt=False):
     """bind the emitted programs to the implementation; returns statistics"""
     thorough = a.tier == "thorough"
     stats = collections.Counter()
+    samples = {}
     violated = set()
     refused = collections.Counter()
     rewrites = collections.Counter()
@@ -634,8 +658,8 @@ def replay(ck, a, tl, only=None, corrupt=False):
         if corrupt and jobs:
             # flip one grid point of one expected solution set: the binding must notice
             for j in jobs:
-                if 0 < len(j["sol"]) < hdr["npts"] - len(j["und"]):
-                    j["sol"] = j["sol"][1:]
+                if 0 < bin(j["sol"]).count("1") < hdr["npts"] - bin(j["und"]).count("1"):
+                    j["sol"] &= j["sol"] - 1          # clears the lowest set bit
                     break
         slim = [{k: v for k, v in j.items() if k not in ("prog", "rw", "cfg", "scheme", "crit", "lines")} for j in jobs]
         n = 25 if CONFIGS[name][0] == "simplify" else 60
@@ -669,7 +693,12 @@ def replay(ck, a, tl, only=None, corrupt=False):
                     if r["st"] == "viol":
                         violated.add((job["cfg"], job["text"], str(job["vars"]), api))
                         key = vkey(job, r)
-                        detail = {"api": api, "input": job["text"], "variables": job["vars"], "random_seed": job["seed"],
+                        hdr_ = tl[job["cfg"]][0]
+                        rj = {k: v for k, v in job.items() if k not in ("sol", "und", "crit", "prog", "lines", "id")}
+                        rj.update(sol_ids=ids(job["sol"]), und_ids=ids(job["und"]), crit_ids=ids(job["crit"]),
+                                  grid={"coords": hdr_["coords"], "nv": hdr_["nv"], "npts": hdr_["npts"]})
+                        detail = {"replay_job": rj,
+                                  "api": api, "input": job["text"], "variables": job["vars"], "random_seed": job["seed"],
                                   "config": job["cfg"], "rewrites": job["rw"], "scheme": job["scheme"],
                                   "returned": r["returned"], "expected_solutions": r["nsol"],
                                   "missing": r["missing"], "extra": r["extra"],
@@ -680,13 +709,17 @@ def replay(ck, a, tl, only=None, corrupt=False):
                                      "but not the result (e.g. %s), %d the result but not the input (e.g. %s)" % (
                                          api, job["text"], job["vars"], job["seed"], r["returned"], r["missing"],
                                          r["missing_pts"][:2], r["extra"], r["extra_pts"][:2]))
-                    elif len(ck.samples) < 6 and r["nontrivial"] and (jid_ % 7 == 0):
-                        ck.sample({"config": job["cfg"], "api": api, "input": job["text"], "variables": job["vars"],
-                                   "rewrites": job["rw"], "random_seed": job["seed"], "expected_solutions_on_grid": len(job["sol"]),
-                                   "undefined_points": len(job["und"])})
+                    elif r["nontrivial"] and job["cfg"] not in samples:
+                        samples[job["cfg"]] = {"config": job["cfg"], "api": api, "input": job["text"], "variables": job["vars"],
+                                               "rewrites": job["rw"], "random_seed": job["seed"], "returned": r.get("returned_ok"),
+                                               "expected_solutions_on_grid": bin(job["sol"]).count("1"),
+                                               "undefined_points": bin(job["und"]).count("1")}
             ck.trace(len(res))
     finally:
         pool.shutdown(wait=True, cancel_futures=True)
+    for name in ("Rat2", "Lin3", "Lin2x2", "Eqs2", "Mat2", "Bnd2", "Mix2", "Lin2", "Rat3", "Eqs3", "Mat3", "Bnd3"):
+        if name in samples:
+            ck.sample(samples[name])
     return {"stats": stats, "violated": violated, "refused": refused, "rewrites": rewrites, "schemes": schemes, "cpu": cpu, "jobs": len(alljobs)}
 
 
@@ -743,7 +776,7 @@ def explore(ck, a):
         "arithmetic is exact (fractions.Fraction)",
         "a returned case holds at a point iff every line of it is defined there and true; points where the INPUT has a "
         "zero denominator are excluded on both sides; None returned by simplify is read as 'no solution'",
-        "an exception, a timeout (30 s), memory exhaustion (3 GB) or a non-text result is a refusal (counted in coverage.refused), not a violation",
+        "an exception, a timeout (30 s), memory exhaustion (2 GB address space) or a non-text result is a refusal (counted in coverage.refused), not a violation",
         "very large / small coefficients are covered as a uniform factor 10^+-8 on all numbers of a line, not mixed "
         "magnitudes within one line; coefficients are dyadic rationals (and -3/2) so that sympy's float arithmetic is exact "
         "up to the stated literal snapping",
@@ -863,11 +896,34 @@ def selftest(a):
     return 1 if missed else 0
 
 
+def replay_artifact(path):
+    """re-run one recorded violation (out/C12/replay_*.json) against the current tree: exit 1 if it still disagrees
+    with the solution set TLC printed when the artefact was written"""
+    d = json.load(open(path))["detail"]
+    job = dict(d["replay_job"])
+    hdr = job.pop("grid")
+    job.update(sol=mask(job.pop("sol_ids")), und=mask(job.pop("und_ids")), crit=mask(job.pop("crit_ids")), id=0)
+    _init_worker()
+    rc = 0
+    for r in run_job(job, hdr):
+        print("%s on %r (variables=%r, random.seed(%d)): %s" % (r["api"], job["text"], job["vars"], job["seed"], r["st"]))
+        if r["st"] == "viol":
+            rc = 1
+            print("  returned %r\n  %d grid points satisfy the input but not the result (e.g. %s), %d the result but not the input (e.g. %s)"
+                  % (r["returned"], r["missing"], r["missing_pts"][:3], r["extra"], r["extra_pts"][:3]))
+            print("VIOLATION property=C12 replay=%s" % path)
+        elif r["st"] != "ok":
+            print("  " + str(r.get("why")))
+    return rc
+
+
 def main():
     a = tier_seed()
     assert_repo()
     import warnings
     warnings.simplefilter("ignore")
+    if a.replay:
+        return replay_artifact(a.replay)
     if a.selftest:
         return selftest(a)
     ck = new_check(a)
